@@ -86,6 +86,7 @@ func (s *State) assume(t *Term) {
 
 type deferred struct {
 	call *ast.CallExpr
+	flag string // Bool state variable: the defer statement was executed on this path
 }
 
 type Exec struct {
@@ -113,8 +114,10 @@ type Exec struct {
 	entryState *State
 	borrow     map[string]borrowInfo // byte slices returned by Scanner.Bytes: scanner and its generation at that time
 	nBorrow    int
+	nWFrame    int
 	curRets    []*Term
 	replayOff  bool
+	deferIdx   map[*ast.DeferStmt]int
 	discardCall *ast.CallExpr // the call of the expression statement being executed (its results are discarded)
 	closureVar map[types.Object]*FuncInfo
 	aliasHook  func(*State)
@@ -153,6 +156,12 @@ func (x *Exec) getSt(s *State, name, sortName string) *Term {
 func (x *Exec) initOf(name, sortName string) *Term {
 	if t, ok := x.initSt[name]; ok {
 		return t
+	}
+	if strings.HasPrefix(name, "defer$") {
+		// "this defer statement has been executed": false at entry
+		x.initSt[name] = False
+		x.u.stateSorts[name] = SBool
+		return False
 	}
 	if sortName == "" {
 		sortName = x.u.stateSorts[name]
@@ -677,6 +686,12 @@ func (x *Exec) execStmt(s *State, stmt ast.Stmt, entry *State) outcomes {
 		return x.execBlock(s, st.List, entry)
 	case *ast.ExprStmt:
 		if c, ok := st.X.(*ast.CallExpr); ok {
+			if lit, isLit := c.Fun.(*ast.FuncLit); isLit && len(c.Args) == 0 {
+				if _, hasContract := x.litContract(lit); !hasContract {
+					// an immediately invoked function literal is executed in place
+					return outcomes{normal: x.inlineLit(s, lit, entry)}
+				}
+			}
 			x.discardCall = c
 		}
 		x.evalMulti(s, st.X)
@@ -769,7 +784,30 @@ func (x *Exec) execStmt(s *State, stmt ast.Stmt, entry *State) outcomes {
 		if len(st.Call.Args) != 0 {
 			x.fail(st, "defer with arguments")
 		}
-		x.defers = append(x.defers, deferred{st.Call})
+		if lit, ok := st.Call.Fun.(*ast.FuncLit); ok {
+			if _, hasContract := x.litContract(lit); !hasContract {
+				x.checkInlinable(lit)
+			}
+		}
+		if x.deferIdx == nil {
+			x.deferIdx = map[*ast.DeferStmt]int{}
+		}
+		idx, seen := x.deferIdx[st]
+		if !seen {
+			idx = len(x.deferIdx)
+			x.deferIdx[st] = idx
+		}
+		// the deferred call runs at a return only on paths that executed this statement
+		found := false
+		for _, d := range x.defers {
+			if d.call == st.Call {
+				found = true
+			}
+		}
+		if !found {
+			x.defers = append(x.defers, deferred{call: st.Call, flag: fmt.Sprintf("defer$%d", idx)})
+		}
+		x.setSt(s, fmt.Sprintf("defer$%d", idx), True)
 		return outcomes{normal: []*State{s}}
 	case *ast.ForStmt:
 		return x.execFor(s, st, entry)
@@ -1003,6 +1041,7 @@ func (x *Exec) assignTo(s *State, lhs ast.Expr, val *Term) {
 		}
 		x.obligeNoPanic(s, Neq(base, V("null", SRef)), "nil dereference", l)
 		x.checkGuard(s, named, l.Sel.Name, base, true, l)
+		x.checkWriteFrame(s, x.u.fieldVar(named, l.Sel.Name), base, l)
 		fv := x.u.fieldVar(named, l.Sel.Name)
 		ft := sel.Obj().Type()
 		fs := x.u.sortOf(ft)
@@ -1228,10 +1267,119 @@ func (x *Exec) doReturn(s *State, vals []*Term, entry *State, pos token.Pos) {
 			s.vars[rv] = vals[i]
 		}
 	}
-	// deferred calls, LIFO
+	// deferred calls, LIFO; a defer statement that is not executed on every path forks the return
+	states := []*State{s}
 	for i := len(x.defers) - 1; i >= 0; i-- {
-		x.evalCall(s, x.defers[i].call)
+		d := x.defers[i]
+		var next []*State
+		for _, st := range states {
+			c := x.getSt(st, d.flag, SBool)
+			switch {
+			case isFalse(c):
+				next = append(next, st)
+			case isTrue(c):
+				next = append(next, x.runDeferred(st, d.call, entry)...)
+			default:
+				a := st.clone()
+				a.assume(c)
+				next = append(next, x.runDeferred(a, d.call, entry)...)
+				st.assume(Not(c))
+				next = append(next, st)
+			}
+		}
+		states = next
 	}
+	for _, st := range states {
+		v := vals
+		// a deferred closure may have assigned named results
+		named := len(x.resultVars) > 0
+		for _, rv := range x.resultVars {
+			if rv.Name() == "" || rv.Name() == "_" {
+				named = false
+			}
+		}
+		if named && len(x.defers) > 0 {
+			v = nil
+			for _, rv := range x.resultVars {
+				v = append(v, st.vars[rv])
+			}
+		}
+		x.finishReturn(st, v, entry, tag, line)
+	}
+}
+
+// runDeferred executes one deferred call at a return.
+func (x *Exec) runDeferred(s *State, call *ast.CallExpr, entry *State) []*State {
+	if lit, ok := call.Fun.(*ast.FuncLit); ok {
+		if _, hasContract := x.litContract(lit); !hasContract {
+			return x.inlineLit(s, lit, entry)
+		}
+	}
+	x.evalCall(s, call)
+	return []*State{s}
+}
+
+// litContract: the contract of a function literal (outer$N), if one was written.
+func (x *Exec) litContract(lit *ast.FuncLit) (*Contract, bool) {
+	fi := x.u.LitOf[lit]
+	if fi == nil {
+		return nil, false
+	}
+	c, ok := x.u.Specs.Contracts[fi.Name]
+	return c, ok
+}
+
+// checkInlinable: a parameterless function literal without results and without return statements can be executed in
+// place (its free variables are the variables of the enclosing function).
+func (x *Exec) checkInlinable(lit *ast.FuncLit) {
+	if lit.Type.Params != nil && len(lit.Type.Params.List) > 0 || lit.Type.Results != nil && len(lit.Type.Results.List) > 0 {
+		x.fail(lit, "function literal without contract: only parameterless literals without results are executed in place")
+	}
+	ast.Inspect(lit.Body, func(n ast.Node) bool {
+		switch n.(type) {
+		case *ast.ReturnStmt:
+			x.fail(n, "return inside a function literal that has no contract")
+		case *ast.FuncLit:
+			return false
+		}
+		return true
+	})
+}
+
+func (x *Exec) inlineLit(s *State, lit *ast.FuncLit, entry *State) []*State {
+	x.checkInlinable(lit)
+	o := x.execBlock(s, lit.Body.List, entry)
+	if len(o.brk) > 0 || len(o.cont) > 0 {
+		x.fail(lit, "break/continue out of a function literal")
+	}
+	return o.normal
+}
+
+// checkWriteFrame: a store to a field of an object that was allocated at entry must be covered by the assigns clause at
+// the time of the store - a write that is undone before the function returns is still a write (another goroutine
+// or a callee may observe it).
+func (x *Exec) checkWriteFrame(s *State, fieldVar string, base *Term, n ast.Node) {
+	if x.c == nil || !x.c.HasAssigns || x.entryState == nil || x.suppress {
+		return
+	}
+	targets := x.resolveAssigns(x.c.Assigns, x.envFor(x.entryState, x.entryState, token.NoPos))
+	alts := []*Term{Not(Select(x.getSt(x.entryState, "alloc", arraySort(SRef, SBool)), base))}
+	for _, t := range targets {
+		if t.Var != fieldVar {
+			continue
+		}
+		if t.Idx == nil {
+			return // the whole field heap is assignable
+		}
+		alts = append(alts, Eq(base, t.Idx[0]))
+	}
+	x.nWFrame++
+	pos := x.u.Fset.Position(n.Pos())
+	x.oblige(s, "wframe", fmt.Sprintf("%s.%d", strings.TrimPrefix(fieldVar, "H."), x.nWFrame), Or(alts...),
+		"store to "+exprStringNode(n)+": the object was allocated at entry and the field is not in the assigns clause (a transient write is still a write)", fmt.Sprintf("%s:%d", x.fi.File, pos.Line))
+}
+
+func (x *Exec) finishReturn(s *State, vals []*Term, entry *State, tag string, line int) {
 	// cover: the return must be reachable
 	isDead := false
 	for _, d := range x.c.Dead {
@@ -1527,7 +1675,7 @@ func (x *Exec) checkFrame(s *State, base *State, assigns []*SExpr, has bool, kin
 		} else {
 			old = x.initOf(name, cur.Sort)
 		}
-		if cur == old || name == "alloc" {
+		if cur == old || name == "alloc" || strings.HasPrefix(name, "defer$") {
 			continue
 		}
 		// boxed locals live in P.* heaps at fresh refs: covered by the allocation rule below
@@ -1852,7 +2000,7 @@ func (x *Exec) runLoop(s *State, entry *State, node ast.Node, bodyNode ast.Node,
 	savedFresh := x.copyFresh()
 	savedDefers := len(x.defers)
 	savedCounts := append([]int(nil), x.loopCount...)
-	savedRet, savedNP, savedNG, savedNB := x.nReturn, x.nNoPanic, x.nGuard, x.nBorrow
+	savedRet, savedNP, savedNG, savedNB, savedNW := x.nReturn, x.nNoPanic, x.nGuard, x.nBorrow, x.nWFrame
 	for iter := 0; iter < 6; iter++ {
 		x.suppress = true
 		h := x.loopHead(s, entry, lc, locals, modified, pseudoInit)
@@ -1889,7 +2037,7 @@ func (x *Exec) runLoop(s *State, entry *State, node ast.Node, bodyNode ast.Node,
 		x.restoreFresh(savedFresh)
 		x.defers = x.defers[:savedDefers]
 		x.loopCount = append([]int(nil), savedCounts...)
-		x.nReturn, x.nNoPanic, x.nGuard, x.nBorrow = savedRet, savedNP, savedNG, savedNB
+		x.nReturn, x.nNoPanic, x.nGuard, x.nBorrow, x.nWFrame = savedRet, savedNP, savedNG, savedNB, savedNW
 		if !grew {
 			break
 		}
